@@ -4,7 +4,7 @@ import gens
 PLAN_ENTRY = {'stages': [
     {'name': 'closest',
      'mc': [{'module': 'MC_C02', 'cfg': {'quick': 'MC_C02_quick.cfg', 'thorough': 'MC_C02_thorough.cfg'}, 'workers': 4}],
-     'gens': ['gen_c02_random'],
+     'gens': ['gen_c02_random', 'gen_c02_closed_seams'],
      'trace': 'Trace_Closest'}],
     'assumptions': [
         'TLC evaluates the exact rational distance operators of Closest.tla correctly (continued-fraction comparison, no overflow)',
@@ -54,7 +54,11 @@ def gen_c02_random(rnd, tier):
                 # points live in a coordinate plane lifted to 3D; keep the query near it
                 pass
             qs.append(q)
-        out.append({'m': 'closest', 'op': 'curve', 'dim': dim, 'pts': pts, 'fc': False, 'sc': rnd.choice((0, -3, 4)), 'tolU': 0, 'tf': rnd.choice((0, 0, 1, 2)), 'qs': qs})
+        fc = dim == 2 and rnd.random() < 0.4 and pts[0] != pts[-1]
+        if fc:
+            # closed: queries on the seam vertex and in the wedge outside it
+            qs += [[2 * pts[0][0], 2 * pts[0][1], 0], [2 * pts[0][0] - 1, 2 * pts[0][1] - 1, 0], [2 * pts[0][0] + 1, 2 * pts[0][1] - 2, 0]]
+        out.append({'m': 'closest', 'op': 'curve', 'dim': dim, 'pts': pts, 'fc': fc, 'sc': rnd.choice((0, -3, 4)), 'tolU': 0, 'tf': rnd.choice((0, 0, 1, 2)), 'qs': qs})
     nmesh = 1 if tier == 'quick' else 12
     for _ in range(nmesh):
         w = rnd.randint(4, 6 if tier == 'quick' else 14)
@@ -72,4 +76,32 @@ def gen_c02_random(rnd, tier):
         qs = [[rnd.randint(-3, 2 * w + 3), rnd.randint(-3, 2 * h + 3), rnd.randint(-4, 9)] for _q in range(25 if tier == 'quick' else 80)]
         out.append({'m': 'closest', 'op': 'mesh', 'name': 'heightfield', 'vpos': vpos, 'faces': faces, 'sc': rnd.choice((0, 0, -21, 12)), 'tf': rnd.randint(0, 2),
                     'caps': [2, 4, 6, 12], 'angles': [30, 45, 60], 'qs': qs})
+    return out
+
+
+def gen_c02_closed_seams(rnd, tier):
+    """closed rectilinear staircase polygons of 6..40 vertices, every choice of seam vertex, queries on the seam vertex and
+    around it: which of the two edges meeting at the seam the search tree reports depends on the size and layout of the curve"""
+    out = []
+    for _ in range(6 if tier == 'quick' else 60):
+        k = rnd.randint(1, 9)
+        # staircase up and to the right, then back along the axes: 2k+2 .. vertices, all edges of length 1..3
+        pts = [[0, 0, 0]]
+        for _j in range(k):
+            pts.append([pts[-1][0] + rnd.randint(1, 3), pts[-1][1], 0])
+            pts.append([pts[-1][0], pts[-1][1] + rnd.randint(1, 3), 0])
+        top = pts[-1]
+        # walk back in steps of at most 3 so that edge lengths stay in the supported set
+        x = top[0]
+        while x > 0:
+            x = max(0, x - 3); pts.append([x, top[1], 0])
+        y = top[1]
+        while y > 3:
+            y = y - 3; pts.append([0, y, 0])
+        n = len(pts)
+        for sh in range(0, n, max(1, n // 5)):
+            p2 = pts[sh:] + pts[:sh]
+            v = p2[0]
+            qs = [[2 * v[0] + dx, 2 * v[1] + dy, 0] for dx in (-2, -1, 0, 1, 2) for dy in (-2, -1, 0, 1, 2)]
+            out.append({'m': 'closest', 'op': 'curve', 'dim': 2, 'pts': p2, 'fc': True, 'sc': rnd.choice((0, -3, 4)), 'tolU': 0, 'tf': 0, 'qs': qs})
     return out
